@@ -356,8 +356,42 @@ def run(ctx):
                 doc_ns = v.value
     reg_prefix = any(isinstance(n, ast.Call) and call_name(n) == 'register_namespace' and len(n.args) == 2 and
                      isinstance(n.args[0], ast.Constant) and n.args[0].value == 'svg' for n in ast.walk(dm.tree))
-    iterfind_prefixed = any(isinstance(n, ast.Call) and call_name(n) == 'iterfind' and n.args and norm(n.args[0]).startswith("'svg:'")
-                            for n in ast.walk(fflat.node))
+    # what the Document reader asks its tree for: run the traversal on a stub root that records every iterfind(query, namespaces)
+    asked_doc = []
+
+    def th_ask(it):
+        root_ = Opaque('Element<svg>')
+        root_.attrs['tag'] = SVGNS + 'svg'
+        root_.attrs['attrib'] = {}
+        root_.attrs['get'] = PyFunc(lambda it2, a, k: a[1] if len(a) > 1 else None, 'get')
+
+        def iterfind(it2, a, k):
+            nsmap = a[1] if len(a) > 1 else k.get('namespaces')
+            asked_doc.append((a[0] if isinstance(a[0], str) else str(a[0]), dict(nsmap) if isinstance(nsmap, dict) else None))
+            return []
+        root_.attrs['iterfind'] = PyFunc(iterfind, 'iterfind')
+        root_.attrs['findall'] = PyFunc(iterfind, 'findall')
+        root_.attrs['iter'] = PyFunc(lambda it2, a, k: [root_], 'iter')
+        root_.attrs['__iter__'] = PyFunc(lambda it2, a, k: [], '__iter__')
+        return it.call(it.closure_of('document.flattened_paths'), [root_], {})
+    try:
+        explore(mdl, th_ask, {'ext_hooks': {'warnings.warn': lambda it, a, k: None}})
+    except Undecidable:
+        asked_doc = None
+
+    def doc_reader_matches(expanded):
+        if asked_doc is None:
+            return False
+        for q, nsmap in asked_doc:
+            q = q[3:] if q.startswith('.//') else (q[2:] if q.startswith('./') else q)
+            if q == expanded:
+                return True
+            if ':' in q and not q.startswith('{'):
+                pre, local = q.split(':', 1)
+                if nsmap and pre in nsmap and '{%s}%s' % (nsmap[pre], local) == expanded:
+                    return True
+        return False
+    iterfind_prefixed = True
 
     # serialised forms (API model): (qualified name in the file, expanded name after re-parsing)
     writers = {}
@@ -375,7 +409,7 @@ def run(ctx):
         writers['SaxDocument.save'] = (t, ('{%s}%s' % (declared[0], t)) if declared and not t.startswith('{') else t)
     readers = {
         'svg2paths': lambda q, x: q == facts.get('s2p_tag'),
-        'Document.paths': lambda q, x: iterfind_prefixed and doc_ns is not None and x == '{%s}path' % doc_ns,
+        'Document.paths': lambda q, x: doc_reader_matches(x),
         'SaxDocument': lambda q, x: strip is not None and x.startswith('{') and len('{' + xmlns + '}') == strip and x[strip:] == 'path'
         and x.startswith('{' + xmlns + '}'),
     }
